@@ -28,7 +28,7 @@ condition such as the filter of an EACH term).
 import ast
 import re
 
-from .interp import Frame, OPS, Sym, Obj, Const, render, _clone
+from .interp import Frame, OPS, Sym, Obj, Const, ListV, render, _clone
 from .loader import AnalysisError, FunctionInfo, dotted
 from . import guards
 
@@ -147,8 +147,14 @@ class PathFrame(Frame):
     def _sig(self, st, base, with_facts=False):
         def n(t):
             return re.sub(re.escape(base) + r'r\d+', base, t)
-        env = tuple(sorted((k, n(render(v))) for k, v in st.env.items()))
-        calls = frozenset((n(c[0]), tuple(n(a) for a in c[1]), tuple(sorted((k, n(v)) for k, v in c[2].items()))) for c in st.calls)
+        def widen(v):
+            # accumulators: a list that only grows round after round is compared by the set of its distinct elements
+            if isinstance(v, ListV):
+                return '%s{%s}' % (v.kind, ', '.join(sorted(set(n(render(e)) for e in v.elems))))
+            return n(render(v))
+        env = tuple(sorted((k, widen(v)) for k, v in st.env.items()))
+        calls = frozenset((n(c[0]), tuple(n(a) for a in c[1]), tuple(sorted((k, n(v)) for k, v in c[2].items()))) for c in st.calls
+                          if c[0][:1] not in '[({')        # (method calls on a growing local list / tuple / set literal)
         if with_facts:
             return env, calls, tuple((f[0], f[1]) for f in st.facts)
         return env, calls
